@@ -20,7 +20,7 @@ PROPS['C07'] = dict(
                     'offset inside a 3-block message; every length 0..4096 x {00,ff,counting} x capacity windows; '
                     'all four codecs; b32_5to8/b32_8to5 for all 32 values',
     engine_text='rapidcheck over choice tapes + exhaustive enumerators, unit shape (base*_ops via glue/unit_api.c), ASan+UBSan',
-    bounds='len <= 4096, capacity <= 2*len+4',
+    bounds='len <= 4096, capacity <= 2*len+4 ',
     trusted_base=TB_COMMON + ['glue/unit_api.c (thin wrappers over base*_ops)',
                               'vbuild.py regenerates base64u.c with the sed rule read from src/Makefile'],
     assumptions=['encoders are called with cap+1 bytes of output space (documented contract)',
@@ -48,7 +48,7 @@ PROPS['C19'] = dict(
          '0xffffffff: L message = hash(challenge), raw login = hash(challenge+1 mod 2^32), client enters raw mode after hash(challenge-1). '
          'non-trivial iff password non-empty (unit) / all frames observed (system, client); distinct = hash of choice tape',
     engine_text='rapidcheck over choice tapes; unit shape + simnet (real iodine + iodined); passwords via -P or the environment, with % sequences; lost raw login replies (client repeats, server must answer again); password typed at the prompt (read_password on a replaced stdin); cut raw login after a complete one',
-    bounds='password <= 40 bytes, 32-bit challenges sampled (boundary values always included) Round 5: server acceptance case (2..7 login attempts per session; only the documented digest is accepted); -P and environment both set.',
+    bounds='password <= 40 bytes, 32-bit challenges sampled (boundary values always included) Round 5: server acceptance case (2..7 login attempts per session; only the documented digest is accepted); -P and environment both set. Round 9: stray datagram (late DNS answer / raw login frame with a foreign digest) during the raw login wait.',
     trusted_base=TB_SIM + ['refmd5 self-tested against the RFC 1321 vectors at start-up'],
     assumptions=AS_SIM + ['MD5 collisions (2^-128) ignored'],
 )
@@ -131,7 +131,7 @@ PROPS['C01'] = dict(
          'then every answer is dropped while N in {7,15,6,8,3} one-fragment packets and the first fragment of a crafted two-fragment packet pass; oracle: every client '
          'tun write was offered on the server\'s tun; non-trivial iff the crafted packet\'s first fragment was seen and dropped. One such case in three is the merge variant (queries held back and released late, the server gives a packet up whose first fragment the client holds, seven packets lost, then its Adler-equivalent partner); when the partner\'s first fragment is lost too the case is known finding K3 / K4 (excluded by construction, counted). distinct = hash of the choice tape Round 6: one merge-game start in three of the scripted sender is the late-fragment game (no loss: a held-up copy of a last fragment arrives eight packets later between the fragments of the Adler-equivalent partner) -- open finding K5, excluded by construction and counted; one adversarial-network case in four is the late-answer case (the router duplicates the answer carrying a last fragment and releases the copy 6/7/8/15 packets later right behind a first fragment; non-trivial iff released after exactly 7 mod 8 packets).',
     engine_text='rapidcheck over choice tapes; simnet hosting real iodined + real iodine clients; ASan+UBSan; crafted adversarial packets (zlib stream of another packet at the second fragment\'s offset inside an incompressible packet)',
-    bounds='<= 3 clients, <= 30 offers, packets <= 6000+24 bytes, <= 40 virtual s of faults, delays <= 3 s',
+    bounds='<= 3 clients, <= 30 offers, packets <= 6000+24 bytes, <= 40 virtual s of faults, delays <= 3 s Round 9: upstream give-up game (real client gives a packet up, next first fragment lost, late acknowledgement, crafted contents).',
     trusted_base=TB_SIM,
     assumptions=AS_SIM + ['for ordinary (not crafted) contents a mis-assembled packet is stopped by zlib\'s Adler-32 and shows as a loss, which C01 allows; mis-assembly is only visible through the crafted content classes'],
 )
@@ -169,7 +169,7 @@ PROPS['C09'] = dict(
     exhaustive_text='thorough: every length 2..4096 x 5 contents x all 210 configurations; quick: lengths 2..320 + windows at '
                     'multiples of 252 + every 5th length, 2 contents Round 7: content independence -- a 0xff payload of the same length goes through the same configuration; exactly one of the two being delivered exactly is a violation.',
     engine_text='complete length sweeps + rapidcheck on the glue pair (static write_dns of iodined.c -> static read_dns_withq of client.c)',
-    bounds='payload 2..4096 bytes Round 5: fourth query name with 63-character labels.',
+    bounds='payload 2..4096 bytes Round 5: fourth query name with 63-character labels. Round 9: an answer cut short in transit followed by the same payload again.',
     trusted_base=TB_COMMON + ['glue/glue_server.c and glue/glue_client.c: textual inclusion of iodined.c / client.c; depend on the '
                               'signatures of write_dns and read_dns_withq', 'sim capture/feed of sendto/recvfrom'],
     assumptions=['Lmax floors (100 bytes for one hostname, 1000 otherwise) and the table of client buffer capacities per (type, codec, caller buffer) used by the fits-but-not-delivered oracle are calibrated on the unchanged tree'],
@@ -225,7 +225,7 @@ PROPS['C16'] = dict(
          'carried new data: the server does not repeat single-fragment packets), and an identical repeat with a new id of one of the 4 most '
          'recently answered queries gets the payload of the original answer; such a case is non-trivial iff >= 3 repeats were sent and >= 2 packets delivered Round 7: one scripted session in four negotiates a fragment size of 1200..4094 (2047/2048/2049/4093/4094 included) and is offered packets up to 4600 bytes.',
     engine_text='rapidcheck over choice tapes; simnet hosting the real iodined; scripted session (refproto) or real iodine client behind a re-delivering relay',
-    bounds='1 session, <= 90 actions (scripted); <= 40 offered packets (real client)', trusted_base=TB_SIM,
+    bounds='1 session, <= 90 actions (scripted); <= 40 offered packets (real client) Round 9: N requests mid-session (the server forgets cached answers when the size goes down); case-changed repeats aimed at fingerprints containing z.', trusted_base=TB_SIM,
     assumptions=AS_SIM + ['window sizes are reduced by the number of case-changed re-deliveries so far (each may legitimately be remembered as a new query)'],
 )
 
@@ -283,7 +283,7 @@ PROPS['C04'] = dict(
          'unassigned; (3) a VACK never names a slot whose age on the server\'s whole-second clock is <= 60 (the harness\'s lower bound of the last refresh is never later than the server\'s), VFUL only when no slot is unused or silent >= 62 s (upper bound of the last refresh), a session silent '
          '>= 62 s is refused. non-trivial iff >= 2 sessions, >= 1 spoof, tun packets for a live and for a dead address, >= 1 expiry crossing',
     engine_text='rapidcheck over choice tapes; simnet hosting the real iodined; honest and adversarial scripted peers (refproto); differential execution',
-    bounds='<= 8 sessions, <= 3 third parties, <= 90 actions, <= 600 virtual s', trusted_base=TB_SIM,
+    bounds='<= 8 sessions, <= 3 third parties, <= 90 actions, <= 600 virtual s Round 9: raw-mode sessions repeat their raw login later in the history.', trusted_base=TB_SIM,
     assumptions=AS_SIM + ['liveness band: 58..62 s of silence is exercised but not judged for routing and refusal; the take-over rule is judged exactly at 60 whole seconds', 'a spoofer has a different IP address than its victim (the server compares addresses, not ports)'],
 )
 
@@ -391,7 +391,7 @@ PROPS['C12'] = dict(
          'from reset: every datagram the real program sends (exact bytes), every tun write, every system() string and the exit status must be equal. '
          'non-trivial iff the case contains a residue-sensitive shape (cut / truncated / pointer / past-end / unterminated / RDLENGTH lie / TXT overrun / boundary datagram)',
     engine_text='rapidcheck over choice tapes + libFuzzer; differential execution over receive-buffer residues (simnet fills [n, capacity) of every recv buffer); unit shape for dns_decode; server scenario 1 in 3 with perturbed history (echo requests of different text before every step)',
-    bounds='as C05 / C06', trusted_base=TB_SIM + ['sim/simnet.cc residue filling of recv/recvfrom/recvmsg buffers'],
+    bounds='as C05 / C06 Round 9: client differential over the CONTENT of ignored replies (short handshake replies behind complete ones with a wrong id).', trusted_base=TB_SIM + ['sim/simnet.cc residue filling of recv/recvfrom/recvmsg buffers'],
     assumptions=AS_SIM + ['stale contents of buffers other than the receive buffer (uninitialised stack) are not controlled by the harness'],
 )
 
